@@ -1,9 +1,14 @@
 /-
-  Layer B (action granularity, every interleaving): the weight-accounting properties C01 and C05 at EVERY INSTANT,
-  lock progress (C18), and the store-level facts C04 / C02 per atomic action.
+  Layer B (action granularity, every interleaving): the weight-accounting properties C01 and C05 at EVERY INSTANT
+  at which the cache is running, lock progress (C18, including the `get_ref` read guards and a `shutdown()` in
+  progress), the store-level facts C04 / C02 per atomic action, and shutdown (C13) per atomic action.
 
   Everything rests on `binv_reach` (CachedProofs/LayerB/Inv.lean): `BInv` holds at every state that any
   interleaving of any number of clients with the command worker, the sweeper and the access consumer can reach.
+
+  `shutdown()` is eleven atomic actions and is NOT atomic with respect to the worker and the sweeper: the accounting
+  theorems (C05, C01) carry the hypothesis `b.g.shutting = false`; `layerB_accounting_void_after_shutdown` and
+  `layerB_negative_after_shutdown` are reachable states showing that they fail without it.
 -/
 import CachedProofs.LayerB.Inv
 
@@ -12,11 +17,15 @@ namespace B
 
 /-! ## C05  the total equals the sum of the charged weights of exactly the keys held — modulo the locals in flight -/
 
-/-- At every instant of every interleaving: `used = Σ kw − (inserted, not yet added) + (removed, not yet subtracted)`. -/
+/-- At every instant of every interleaving, WHILE THE CACHE IS RUNNING:
+    `used = Σ kw − (inserted, not yet added) + (removed, not yet subtracted)`.
+    (`hrun`: `shutdown()` clears `key_weights` and zeroes `weight_used` in two separate actions while worker and
+    sweeper keep running — `layerB_accounting_void_after_shutdown` below is a reachable state where the identity fails.
+    The flag is set by the first action of `shutdown()` and never reset: `stepB_shutting_mono`.) -/
 theorem C05_layerB_accounting {cfg : Cfg} {now : Nat} {seeds : List Nat} {clients : Nat} {b : BState}
-    (h : Reach cfg now seeds clients b) :
+    (h : Reach cfg now seeds clients b) (hrun : b.g.shutting = false) :
     b.g.adm.used = sumW b.g.adm.kw - pendingAdd b + pendingSub b :=
-  (binv_reach h).sum
+  ((binv_reach h).acct hrun).sum
 
 /-- nothing in flight: the worker is not between `kw.insert` and `wu.add` nor between a `kw.remove` and its `wu.sub`,
     and the sweeper is not between `kw.remove` and `wu.sub` -/
@@ -40,14 +49,15 @@ theorem AtRest.pending {b : BState} (h : AtRest b) : pendingAdd b = 0 ∧ pendin
 
 /-- Whenever nothing is in flight the identity is exact — whatever else the threads are doing. -/
 theorem C05_layerB_at_rest {cfg : Cfg} {now : Nat} {seeds : List Nat} {clients : Nat} {b : BState}
-    (h : Reach cfg now seeds clients b) (hp : pendingAdd b = 0 ∧ pendingSub b = 0) :
+    (h : Reach cfg now seeds clients b) (hrun : b.g.shutting = false) (hp : pendingAdd b = 0 ∧ pendingSub b = 0) :
     b.g.adm.used = sumW b.g.adm.kw := by
-  have := C05_layerB_accounting h
+  have := C05_layerB_accounting h hrun
   omega
 
 theorem C05_layerB_at_rest' {cfg : Cfg} {now : Nat} {seeds : List Nat} {clients : Nat} {b : BState}
-    (h : Reach cfg now seeds clients b) (hr : AtRest b) : b.g.adm.used = sumW b.g.adm.kw :=
-  C05_layerB_at_rest h hr.pending
+    (h : Reach cfg now seeds clients b) (hrun : b.g.shutting = false) (hr : AtRest b) :
+    b.g.adm.used = sumW b.g.adm.kw :=
+  C05_layerB_at_rest h hrun hr.pending
 
 /-! ## C01  the total is never negative — at every instant -/
 
@@ -60,52 +70,125 @@ theorem pendingSub_nonneg {b : BState} (hb : BInv b) : 0 ≤ pendingSub b := by
   all_goals omega
 
 /-- what is charged covers what is still to be added -/
-theorem pendingAdd_le_sumW {b : BState} (hb : BInv b) : pendingAdd b ≤ sumW b.g.adm.kw := by
+theorem pendingAdd_le_sumW {b : BState} (hb : BInv b) (hrun : b.g.shutting = false) :
+    pendingAdd b ≤ sumW b.g.adm.kw := by
   unfold pendingAdd
   split
   · rename_i c hc
-    have := weight_le_sumW hb.kwNoDup hb.positive (hb.addCharged c hc)
+    have := weight_le_sumW hb.kwNoDup hb.positive ((hb.acct hrun).addCharged c hc)
     exact this
   · exact sumW_nonneg hb.kwNoDup hb.positive
 
-theorem BInv.used_nonneg {b : BState} (hb : BInv b) : 0 ≤ b.g.adm.used := by
-  have h1 := hb.sum
+theorem BInv.used_nonneg {b : BState} (hb : BInv b) (hrun : b.g.shutting = false) : 0 ≤ b.g.adm.used := by
+  have h1 := (hb.acct hrun).sum
   have h2 := pendingSub_nonneg hb
-  have h3 := pendingAdd_le_sumW hb
+  have h3 := pendingAdd_le_sumW hb hrun
   omega
 
-/-- The total never dips below zero: not between a `kw.remove` and its `wu.sub`, not between `kw.insert` and `wu.add`,
-    however client threads, the command worker and the sweeper interleave. -/
+/-- While the cache is running the total never dips below zero: not between a `kw.remove` and its `wu.sub`, not
+    between `kw.insert` and `wu.add`, however client threads, the command worker and the sweeper interleave.
+    (After a shutdown it can: `layerB_negative_after_shutdown`.) -/
 theorem C01_layerB_nonneg {cfg : Cfg} {now : Nat} {seeds : List Nat} {clients : Nat} {b : BState}
-    (h : Reach cfg now seeds clients b) : 0 ≤ b.g.adm.used :=
-  (binv_reach h).used_nonneg
+    (h : Reach cfg now seeds clients b) (hrun : b.g.shutting = false) : 0 ≤ b.g.adm.used :=
+  (binv_reach h).used_nonneg hrun
 
-/-! ## C18  lock progress -/
+/-! ## C18  lock progress
 
-/-- (a) the worker, owning `weight_used`, stands at `store.remove` of an eviction: its action needs no lock, is
-    enabled whatever the oracle holds, and releases `weight_used`. -/
+  The wait-for relation of the locks held ACROSS schedule points:
+    expiry shard (sweeper)  →  `weight_used` (worker at `evStore`, or the sweeper itself at `store`)
+                            →  a store shard read-locked by a `get_ref` guard (a client at `pool.add`)
+                            →  nothing (the guard holder's action takes the buffer lock only).
+  Every chain ends at a thread that is enabled; there is no cycle.  All of this is unconditional (it holds during
+  and after a shutdown as well). -/
+
+/-- client `i` stands at `pool.add` of a `get_ref` and keeps a read guard on store shard `sh` -/
+def HoldsGuard (b : BState) (i sh : Nat) : Prop :=
+  ∃ k v, b.cl[i]? = some (.refPool k v) ∧ storeShardOf b k = sh ∧ (i, sh) ∈ b.storeReaders
+
+/-- a store write that is not enabled waits for a client that keeps a read guard on that shard (another thread's) -/
+theorem blocked_by_guard {b : BState} (hb : BInv b) {k : Nat} {t : Option Nat} (h : storeWritable b k t = false) :
+    ∃ j, some j ≠ t ∧ HoldsGuard b j (storeShardOf b k) := by
+  unfold storeWritable at h
+  simp only [Bool.not_eq_false', List.any_eq_true, Bool.and_eq_true, beq_iff_eq, bne_iff_ne, ne_eq] at h
+  obtain ⟨p, hp, he, hne⟩ := h
+  obtain ⟨k', v, hcl, hsh⟩ := hb.guards.1 p hp
+  refine ⟨p.1, hne, k', v, hcl, by rw [← hsh, he], ?_⟩
+  rw [← he]; exact hp
+
+/-- (d) A client that keeps a store read guard (it stands at `pool.add` of a `get_ref`) is enabled for EVERY legal
+    oracle (a buffer index inside the pool): its action takes the buffer lock only.  The action returns the call and
+    drops the guard — so nobody inside the cache waits for ever for a `get_ref` guard. -/
+theorem C18_layerB_guard_holder_enabled {b : BState} {i k v : Nat} (hpc : b.cl[i]? = some (.refPool k v))
+    (o : Oracle) {idx : Nat} {rest : List Nat} (ho : o.pool = idx :: rest) (hidx : idx < b.g.pool.length) :
+    ∃ b' o', clientAct b i o = .ok (b', o') ∧ b'.cl[i]? = some .idle ∧ (∀ p ∈ b'.storeReaders, p.1 ≠ i) ∧
+      b'.res = b.res.set i (.value (some v) :: b.res.getD i []) := by
+  have hlt : i < b.cl.length := by
+    rcases Nat.lt_or_ge i b.cl.length with h | h
+    · exact h
+    · rw [List.getElem?_eq_none h] at hpc; cases hpc
+  have hp : ∃ g1 o', poolAdd b.g (b.g.cfg.hashOf k) o = .ok (g1, o') := by
+    unfold poolAdd
+    simp only [ho, List.getElem?_eq_getElem hidx]
+    exact ⟨_, _, rfl⟩
+  obtain ⟨g1, o', hp⟩ := hp
+  refine ⟨finishCall { b with g := g1, storeReaders := b.storeReaders.filter (fun p => p.1 != i) } i (.value (some v)),
+    o', by simp only [clientAct, hpc, hp], ?_, ?_, rfl⟩
+  · simp [finishCall, List.getElem?_set_self hlt]
+  · intro p hp'
+    simp only [finishCall, List.mem_filter, bne_iff_ne, ne_eq] at hp'
+    exact hp'.2
+
+theorem C18_layerB_guard_holder_enabled' {b : BState} {i sh : Nat} (h : HoldsGuard b i sh)
+    (o : Oracle) {idx : Nat} {rest : List Nat} (ho : o.pool = idx :: rest) (hidx : idx < b.g.pool.length) :
+    ∃ b' o', clientAct b i o = .ok (b', o') ∧ ∀ sh', ¬ HoldsGuard b' i sh' := by
+  obtain ⟨k, v, hpc, _, _⟩ := h
+  obtain ⟨b', o', h1, _, h3, _⟩ := C18_layerB_guard_holder_enabled hpc o ho hidx
+  exact ⟨b', o', h1, fun sh' ⟨_, _, _, _, hm⟩ => h3 _ hm rfl⟩
+
+/-- (a) the worker, owning `weight_used`, stands at `store.remove` of an eviction: its action needs no further lock
+    ACROSS a schedule point; it is enabled whatever the oracle holds, and releases `weight_used` — unless a client
+    keeps a `get_ref` read guard on the victim's store shard (and that client is enabled: (d)).
+    CHANGED with the model: before `get_ref` guards were modelled the action was enabled unconditionally. -/
 theorem C18_layerB_worker_holder_enabled {b : BState} (hb : BInv b) (h : b.wuOwner = some .worker) (o : Oracle) :
-    ∃ b' o', workerAct b o = .ok (b', o') ∧ b'.wuOwner = none := by
+    ∃ c e s id wk, b.w = .evStore c e s id wk ∧
+      ((∃ b' o', workerAct b o = .ok (b', o') ∧ b'.wuOwner = none) ∨
+       (storeWritable b wk.key none = false ∧ ∃ j, HoldsGuard b j (storeShardOf b wk.key))) := by
   obtain ⟨c, e, s, i, wk, hw⟩ := hb.wuWorker.mp h
-  exact ⟨_, _, by simp only [workerAct, hw]; rfl, rfl⟩
+  refine ⟨c, e, s, i, wk, hw, ?_⟩
+  cases hwr : storeWritable b wk.key none with
+  | true => exact Or.inl ⟨_, _, by simp only [workerAct, hw, hwr]; rfl, rfl⟩
+  | false =>
+    obtain ⟨j, _, hj⟩ := blocked_by_guard hb hwr
+    exact Or.inr ⟨rfl, j, hj⟩
 
-/-- (b) the sweeper, owning `weight_used`, stands at `store.remove`: enabled for every oracle, releases the lock. -/
+/-- (b) the sweeper, owning `weight_used`, stands at `store.remove`: enabled for every oracle, releases the lock —
+    unless a client keeps a `get_ref` read guard on that store shard (CHANGED with the model, as (a)). -/
 theorem C18_layerB_sweeper_holder_enabled {b : BState} (hb : BInv b) (h : b.wuOwner = some .sweeper) (v : Option Nat) :
-    ∃ b', sweeperAct b v = .ok b' ∧ b'.wuOwner = none := by
+    ∃ n sh r id wk, b.sw = .store n sh r id wk ∧
+      ((∃ b', sweeperAct b v = .ok b' ∧ b'.wuOwner = none) ∨
+       (storeWritable b wk.key none = false ∧ ∃ j, HoldsGuard b j (storeShardOf b wk.key))) := by
   obtain ⟨n, sh, r, i, wk, hs⟩ := hb.wuSweeper.mp h
-  refine ⟨_, by simp only [sweeperAct, hs]; rfl, ?_⟩
-  unfold sweepNext; split <;> rfl
+  refine ⟨n, sh, r, i, wk, hs, ?_⟩
+  cases hwr : storeWritable b wk.key none with
+  | true =>
+    refine Or.inl ⟨_, by simp only [sweeperAct, hs, hwr]; rfl, ?_⟩
+    unfold sweepNext; split <;> rfl
+  | false =>
+    obtain ⟨j, _, hj⟩ := blocked_by_guard hb hwr
+    exact Or.inr ⟨rfl, j, hj⟩
 
 /-- (c) while the sweeper owns an expiry shard, its next action is enabled — for every `visit` that names an
-    unvisited entry (and there is one) at `sweep.entry`, always at `kw.remove` and `store.remove`, and at `wu.sub`
-    unless the WORKER owns `weight_used` (who by (a) can always move on and then frees it). -/
+    unvisited entry (and there is one) at `sweep.entry`, always at `kw.remove`, at `wu.sub` unless the WORKER owns
+    `weight_used` (who by (a) can move on and then frees it), and at `store.remove` unless a client keeps a `get_ref`
+    guard on that store shard (who by (d) can always move on and then drops it). -/
 theorem C18_layerB_shard_holder_enabled {b : BState} (hb : BInv b) (sh : Nat) (h : b.ttlOwner = some sh) :
     (∃ now rest, b.sw = .entry now sh rest ∧ rest ≠ [] ∧
         ∀ id e, (id, e) ∈ rest → ∃ b', sweeperAct b (some id) = .ok b') ∨
     (∃ now rest id, b.sw = .kwRemove now sh rest id ∧ ∀ v, ∃ b', sweeperAct b v = .ok b') ∨
     (∃ now rest id wk, b.sw = .sub now sh rest id wk ∧
         ((b.wuOwner = none ∧ ∀ v, ∃ b', sweeperAct b v = .ok b') ∨ b.wuOwner = some .worker)) ∨
-    (∃ now rest id wk, b.sw = .store now sh rest id wk ∧ ∀ v, ∃ b', sweeperAct b v = .ok b') := by
+    (∃ now rest id wk, b.sw = .store now sh rest id wk ∧
+        ((∀ v, ∃ b', sweeperAct b v = .ok b') ∨ ∃ j, HoldsGuard b j (storeShardOf b wk.key))) := by
   have hsh := hb.ttlSweeper.2 sh h
   cases hs : b.sw with
   | begin => simp [hs, SPc.shard?] at hsh
@@ -147,27 +230,39 @@ theorem C18_layerB_shard_holder_enabled {b : BState} (hb : BInv b) (sh : Nat) (h
       | client i => exact absurd ho (hb.wuClients i).1
   | store now sh' rest id wk =>
     simp only [hs, SPc.shard?, Option.some.injEq] at hsh; subst hsh
-    refine Or.inr (Or.inr (Or.inr ⟨now, rest, id, wk, rfl, fun v => ?_⟩))
-    simp only [sweeperAct, hs]
-    exact ⟨_, rfl⟩
+    refine Or.inr (Or.inr (Or.inr ⟨now, rest, id, wk, rfl, ?_⟩))
+    cases hwr : storeWritable b wk.key none with
+    | true =>
+      refine Or.inl fun v => ?_
+      simp only [sweeperAct, hs, hwr]
+      exact ⟨_, rfl⟩
+    | false =>
+      obtain ⟨j, _, hj⟩ := blocked_by_guard hb hwr
+      exact Or.inr ⟨j, hj⟩
 
-/-- C18 at action granularity: the three parts together. -/
+/-- C18 at action granularity: the parts together. -/
 theorem C18_layerB_lock_progress {b : BState} (hb : BInv b) :
-    (b.wuOwner = some .worker → ∀ o, ∃ r, workerAct b o = .ok r) ∧
-    (b.wuOwner = some .sweeper → ∀ v, ∃ b', sweeperAct b v = .ok b') ∧
+    (b.wuOwner = some .worker → ∀ o, (∃ r, workerAct b o = .ok r) ∨ ∃ j sh, HoldsGuard b j sh) ∧
+    (b.wuOwner = some .sweeper → ∀ v, (∃ b', sweeperAct b v = .ok b') ∨ ∃ j sh, HoldsGuard b j sh) ∧
     (∀ sh, b.ttlOwner = some sh →
       (∃ v b', sweeperAct b v = .ok b') ∨
-      (b.wuOwner = some .worker ∧ ∀ o, ∃ b1 o1, workerAct b o = .ok (b1, o1) ∧ b1.wuOwner = none)) := by
-  refine ⟨?_, ?_, ?_⟩
+      (b.wuOwner = some .worker ∧
+        ∀ o, (∃ b1 o1, workerAct b o = .ok (b1, o1) ∧ b1.wuOwner = none) ∨ ∃ j sh, HoldsGuard b j sh) ∨
+      (∃ j sh, HoldsGuard b j sh)) ∧
+    (∀ j sh, HoldsGuard b j sh → ∀ (o : Oracle) (idx : Nat) (rest : List Nat), o.pool = idx :: rest →
+      idx < b.g.pool.length → ∃ r, clientAct b j o = .ok r) := by
+  refine ⟨?_, ?_, ?_, ?_⟩
   · intro h o
-    obtain ⟨b', o', h', _⟩ := C18_layerB_worker_holder_enabled hb h o
-    exact ⟨_, h'⟩
+    obtain ⟨_, _, _, _, wk, _, ⟨b', o', h', _⟩ | ⟨_, j, hj⟩⟩ := C18_layerB_worker_holder_enabled hb h o
+    · exact Or.inl ⟨_, h'⟩
+    · exact Or.inr ⟨j, _, hj⟩
   · intro h v
-    obtain ⟨b', h', _⟩ := C18_layerB_sweeper_holder_enabled hb h v
-    exact ⟨_, h'⟩
+    obtain ⟨_, _, _, _, wk, _, ⟨b', h', _⟩ | ⟨_, j, hj⟩⟩ := C18_layerB_sweeper_holder_enabled hb h v
+    · exact Or.inl ⟨_, h'⟩
+    · exact Or.inr ⟨j, _, hj⟩
   · intro sh h
     rcases C18_layerB_shard_holder_enabled hb sh h with ⟨now, rest, hs, hne, hall⟩ | ⟨_, _, _, _, hall⟩ |
-      ⟨_, _, _, _, _, ⟨_, hall⟩ | hw⟩ | ⟨_, _, _, _, _, hall⟩
+      ⟨_, _, _, _, _, ⟨_, hall⟩ | hw⟩ | ⟨_, _, _, _, _, hall | ⟨j, hj⟩⟩
     · cases rest with
       | nil => exact absurd rfl hne
       | cons p rest =>
@@ -175,29 +270,171 @@ theorem C18_layerB_lock_progress {b : BState} (hb : BInv b) :
         exact Or.inl ⟨_, _, h'⟩
     · obtain ⟨b', h'⟩ := hall none; exact Or.inl ⟨_, _, h'⟩
     · obtain ⟨b', h'⟩ := hall none; exact Or.inl ⟨_, _, h'⟩
-    · exact Or.inr ⟨hw, C18_layerB_worker_holder_enabled hb hw⟩
+    · refine Or.inr (Or.inl ⟨hw, fun o => ?_⟩)
+      obtain ⟨_, _, _, _, wk, _, h' | ⟨_, j, hj⟩⟩ := C18_layerB_worker_holder_enabled hb hw o
+      · exact Or.inl h'
+      · exact Or.inr ⟨j, _, hj⟩
     · obtain ⟨b', h'⟩ := hall none; exact Or.inl ⟨_, _, h'⟩
+    · exact Or.inr (Or.inr ⟨j, _, hj⟩)
+  · intro j sh hj o idx rest ho hidx
+    obtain ⟨b', o', h', _⟩ := C18_layerB_guard_holder_enabled' hj o ho hidx
+    exact ⟨_, h'⟩
 
 /-- No cycle of lock waits, at any reachable state of any interleaving:
     * the owner of `weight_used` is the worker at `evStore` or the sweeper at `store` — never a client, never the
-      consumer — and the action it stands at takes no lock at all (it is enabled unconditionally);
-    * the owner of an expiry-shard lock (the sweeper) waits, if at all, for `weight_used` held by the WORKER,
-      which by the first point waits for nothing. -/
+      consumer — and the action it stands at waits, if at all, for a `get_ref` read guard on one store shard;
+    * the owner of an expiry-shard lock (the sweeper) waits, if at all, for `weight_used` held by the WORKER, or for
+      such a read guard;
+    * the holder of a read guard (a client at `pool.add`) waits for nothing: it is enabled for every legal oracle. -/
 theorem C18_layerB_no_lock_wait_cycle {cfg : Cfg} {now : Nat} {seeds : List Nat} {clients : Nat} {b : BState}
     (h : Reach cfg now seeds clients b) :
-    (b.wuOwner = some .worker → (∃ c e s i wk, b.w = .evStore c e s i wk) ∧ ∀ o, ∃ r, workerAct b o = .ok r) ∧
-    (b.wuOwner = some .sweeper → (∃ n sh r i wk, b.sw = .store n sh r i wk) ∧ ∀ v, ∃ b', sweeperAct b v = .ok b') ∧
+    (b.wuOwner = some .worker → (∃ c e s i wk, b.w = .evStore c e s i wk) ∧
+      ∀ o, (∃ r, workerAct b o = .ok r) ∨ ∃ j sh, HoldsGuard b j sh) ∧
+    (b.wuOwner = some .sweeper → (∃ n sh r i wk, b.sw = .store n sh r i wk) ∧
+      ∀ v, (∃ b', sweeperAct b v = .ok b') ∨ ∃ j sh, HoldsGuard b j sh) ∧
     (∀ i, b.wuOwner ≠ some (.client i)) ∧ b.wuOwner ≠ some .consumer ∧
     (∀ sh, b.ttlOwner = some sh → (∀ v, sweeperAct b v = .error "not enabled: weight_used is locked") →
-      b.wuOwner = some .worker) := by
+      b.wuOwner = some .worker) ∧
+    (∀ sh, b.ttlOwner = some sh → (∀ v, sweeperAct b v = .error "not enabled: the store shard is read-locked") →
+      ∃ j sh', HoldsGuard b j sh') ∧
+    (∀ j sh, HoldsGuard b j sh → ∀ (o : Oracle) (idx : Nat) (rest : List Nat), o.pool = idx :: rest →
+      idx < b.g.pool.length → ∃ r, clientAct b j o = .ok r) := by
   have hb := binv_reach h
-  obtain ⟨h1, h2, h3⟩ := C18_layerB_lock_progress hb
+  obtain ⟨h1, h2, h3, h4⟩ := C18_layerB_lock_progress hb
   refine ⟨fun h => ⟨hb.wuWorker.mp h, h1 h⟩, fun h => ⟨hb.wuSweeper.mp h, h2 h⟩, fun i => (hb.wuClients i).1,
-    (hb.wuClients 0).2, ?_⟩
-  intro sh hsh hblocked
-  rcases h3 sh hsh with ⟨v, b', h'⟩ | ⟨hw, _⟩
-  · rw [hblocked v] at h'; cases h'
-  · exact hw
+    (hb.wuClients 0).2, ?_, ?_, h4⟩
+  · intro sh hsh hblocked
+    rcases C18_layerB_shard_holder_enabled hb sh hsh with ⟨now, rest, hs, hne, hall⟩ | ⟨_, _, _, _, hall⟩ |
+      ⟨_, _, _, _, _, ⟨_, hall⟩ | hw⟩ | ⟨_, _, _, wk, hs, _⟩
+    · cases rest with
+      | nil => exact absurd rfl hne
+      | cons p rest =>
+        obtain ⟨b', h'⟩ := hall p.1 p.2 (by simp)
+        rw [hblocked] at h'; cases h'
+    · obtain ⟨b', h'⟩ := hall none; rw [hblocked] at h'; cases h'
+    · obtain ⟨b', h'⟩ := hall none; rw [hblocked] at h'; cases h'
+    · exact hw
+    · have := hblocked none
+      simp only [sweeperAct, hs] at this
+      split at this <;> simp at this
+  · intro sh hsh hblocked
+    rcases C18_layerB_shard_holder_enabled hb sh hsh with ⟨now, rest, hs, hne, hall⟩ | ⟨_, _, _, _, hall⟩ |
+      ⟨_, _, _, _, hs, _⟩ | ⟨_, _, _, _, _, hall | ⟨j, hj⟩⟩
+    · cases rest with
+      | nil => exact absurd rfl hne
+      | cons p rest =>
+        obtain ⟨b', h'⟩ := hall p.1 p.2 (by simp)
+        rw [hblocked] at h'; cases h'
+    · obtain ⟨b', h'⟩ := hall none; rw [hblocked] at h'; cases h'
+    · have := hblocked none
+      simp only [sweeperAct, hs] at this
+      split at this <;> simp at this
+    · obtain ⟨b', h'⟩ := hall none; rw [hblocked] at h'; cases h'
+    · exact ⟨j, _, hj⟩
+
+/-- (e) A `shutdown()` in progress is never blocked for ever by a lock.  Whatever position of `CacheD::shutdown` client
+    `i` stands at, its next action is enabled — except
+      * at the two sends, while the queue has no room (a matter of the queues' consumers, outside the lock argument);
+      * at `store_clear`, while ANOTHER client keeps a `get_ref` read guard — that client is enabled ((d));
+      * at `wu_zero`, while the worker or the sweeper owns `weight_used` — the owner is enabled or waits for a guard
+        holder ((a), (b));
+      * at `ttl_clear`, while the sweeper owns an expiry shard — the sweeper makes progress ((c)) and drops the lock
+        after a bounded number of its own actions (`C18_layerB_shard_lock_bounded`). -/
+theorem C18_layerB_shutdown_progress {b : BState} (hb : BInv b) {i : Nat} {pc : CPc} (hpc : b.cl[i]? = some pc)
+    (hsd : pc = .shutCas ∨ pc.afterCas = true) (o : Oracle) :
+    (∃ r, clientAct b i o = .ok r) ∨
+    (pc = .shutSendCmd ∧ b.g.worker ≠ .dead ∧ b.g.queue.length ≥ b.g.cfg.cmdCap) ∨
+    (pc = .shutSendBuf ∧ b.g.consumerAlive = true ∧ b.g.bufq.length ≥ b.g.cfg.bufChanCap) ∨
+    (pc = .shutStoreClear ∧ ∃ j sh, j ≠ i ∧ HoldsGuard b j sh) ∨
+    (pc = .shutWuZero ∧ (b.wuOwner = some .worker ∨ b.wuOwner = some .sweeper)) ∨
+    (pc = .shutTtlClear ∧ ∃ sh, b.ttlOwner = some sh) := by
+  rcases hsd with rfl | hsd
+  · refine Or.inl ?_
+    simp only [clientAct, hpc]
+    split <;> exact ⟨_, rfl⟩
+  cases pc with
+  | shutSendCmd =>
+    by_cases hd : b.g.worker = .dead
+    · exact Or.inl (by simp only [clientAct, hpc, hd, if_true]; exact ⟨_, rfl⟩)
+    · by_cases hq : b.g.queue.length ≥ b.g.cfg.cmdCap
+      · exact Or.inr (Or.inl ⟨rfl, hd, hq⟩)
+      · exact Or.inl (by simp only [clientAct, hpc, hd, hq, if_false]; exact ⟨_, rfl⟩)
+  | shutSendBuf =>
+    cases ha : b.g.consumerAlive with
+    | false => exact Or.inl (by simp only [clientAct, hpc, ha]; exact ⟨_, rfl⟩)
+    | true =>
+      by_cases hq : b.g.bufq.length ≥ b.g.cfg.bufChanCap
+      · exact Or.inr (Or.inr (Or.inl ⟨rfl, rfl, hq⟩))
+      · exact Or.inl (by simp only [clientAct, hpc, ha, hq]; exact ⟨_, rfl⟩)
+  | shutConsumerFlag => exact Or.inl (by simp only [clientAct, hpc]; exact ⟨_, rfl⟩)
+  | shutTickerFlag => exact Or.inl (by simp only [clientAct, hpc]; exact ⟨_, rfl⟩)
+  | shutStoreClear =>
+    cases hr : b.storeReaders.any (fun p => p.1 != i) with
+    | false => exact Or.inl (by simp only [clientAct, hpc, hr]; exact ⟨_, rfl⟩)
+    | true =>
+      refine Or.inr (Or.inr (Or.inr (Or.inl ⟨rfl, ?_⟩)))
+      simp only [List.any_eq_true, bne_iff_ne, ne_eq] at hr
+      obtain ⟨p, hp, hne⟩ := hr
+      obtain ⟨k, v, hcl, hsh⟩ := hb.guards.1 p hp
+      exact ⟨p.1, p.2, hne, k, v, hcl, hsh.symm, hp⟩
+  | shutKwClear => exact Or.inl (by simp only [clientAct, hpc]; exact ⟨_, rfl⟩)
+  | shutWuZero =>
+    cases ho : b.wuOwner with
+    | none => exact Or.inl (by simp only [clientAct, hpc, wuFree, ho]; exact ⟨_, rfl⟩)
+    | some t =>
+      cases t with
+      | worker => exact Or.inr (Or.inr (Or.inr (Or.inr (Or.inl ⟨rfl, Or.inl rfl⟩))))
+      | sweeper => exact Or.inr (Or.inr (Or.inr (Or.inr (Or.inl ⟨rfl, Or.inr rfl⟩))))
+      | consumer => exact absurd ho (hb.wuClients 0).2
+      | client j => exact absurd ho (hb.wuClients j).1
+  | shutAfClear => exact Or.inl (by simp only [clientAct, hpc]; exact ⟨_, rfl⟩)
+  | shutStatsClear => exact Or.inl (by simp only [clientAct, hpc]; exact ⟨_, rfl⟩)
+  | shutTtlClear =>
+    cases ho : b.ttlOwner with
+    | none => exact Or.inl (by simp only [clientAct, hpc, ho]; exact ⟨_, rfl⟩)
+    | some sh => exact Or.inr (Or.inr (Or.inr (Or.inr (Or.inr ⟨rfl, sh, rfl⟩))))
+  | _ => simp [CPc.afterCas] at hsd
+
+/-- (e), with (a)–(d) folded in: whenever a `shutdown()` in progress is not enabled, either it waits for room in one
+    of the two queues, or ANOTHER thread is enabled whose action is what it (directly or indirectly) waits for: the
+    worker (for every oracle), the sweeper (for some visit), or a client keeping a `get_ref` guard (enabled for
+    every legal oracle by `C18_layerB_guard_holder_enabled'`).  No lock ever blocks a shutdown for good. -/
+theorem C18_layerB_shutdown_never_deadlocked {b : BState} (hb : BInv b) {i : Nat} {pc : CPc}
+    (hpc : b.cl[i]? = some pc) (hsd : pc = .shutCas ∨ pc.afterCas = true) (o : Oracle) :
+    (∃ r, clientAct b i o = .ok r) ∨
+    (pc = .shutSendCmd ∧ b.g.worker ≠ .dead ∧ b.g.queue.length ≥ b.g.cfg.cmdCap) ∨
+    (pc = .shutSendBuf ∧ b.g.consumerAlive = true ∧ b.g.bufq.length ≥ b.g.cfg.bufChanCap) ∨
+    (∀ ow, ∃ r, workerAct b ow = .ok r) ∨ (∃ v b', sweeperAct b v = .ok b') ∨
+    (∃ j sh, j ≠ i ∧ HoldsGuard b j sh) := by
+  have hne : ∀ j sh, HoldsGuard b j sh → j ≠ i := by
+    intro j sh ⟨k, v, hj, _, _⟩ e
+    subst e
+    rw [hpc] at hj; cases hj
+    rcases hsd with h | h <;> cases h
+  by_cases hg : ∃ j sh, j ≠ i ∧ HoldsGuard b j sh
+  · exact Or.inr (Or.inr (Or.inr (Or.inr (Or.inr hg))))
+  have hno : ∀ j sh, ¬ HoldsGuard b j sh := fun j sh h => hg ⟨j, sh, hne j sh h, h⟩
+  obtain ⟨h1, h2, h3, _⟩ := C18_layerB_lock_progress hb
+  rcases C18_layerB_shutdown_progress hb hpc hsd o with h | h | h | ⟨_, j, sh, hj, hh⟩ | ⟨_, hw | hs⟩ | ⟨_, sh, hsh⟩
+  · exact Or.inl h
+  · exact Or.inr (Or.inl h)
+  · exact Or.inr (Or.inr (Or.inl h))
+  · exact absurd hh (hno j sh)
+  · refine Or.inr (Or.inr (Or.inr (Or.inl fun ow => ?_)))
+    rcases h1 hw ow with h | ⟨j, sh, h⟩
+    · exact h
+    · exact absurd h (hno j sh)
+  · refine Or.inr (Or.inr (Or.inr (Or.inr (Or.inl ?_))))
+    rcases h2 hs none with h | ⟨j, sh, h⟩
+    · exact ⟨none, h⟩
+    · exact absurd h (hno j sh)
+  · rcases h3 sh hsh with h | ⟨hw, _⟩ | ⟨j, sh', h⟩
+    · exact Or.inr (Or.inr (Or.inr (Or.inr (Or.inl h))))
+    · refine Or.inr (Or.inr (Or.inr (Or.inl fun ow => ?_)))
+      rcases h1 hw ow with h | ⟨j, sh', h⟩
+      · exact h
+      · exact absurd h (hno j sh')
+    · exact absurd h (hno j sh')
 
 /-- how many sweeper actions are left before the shard lock is dropped -/
 def swMeasure : SPc → Nat
@@ -261,10 +498,11 @@ def UnsafeUpdate (b : BState) (a : Act) : Prop :=
   a = .worker ∧ ∃ id w h, b.w = .update id w h ∧
     (∃ wk, b.g.adm.kw.get? id = some wk ∧ w - wk.weight > b.g.adm.max - b.g.adm.used)
 
-theorem bbound_wtrans {b b' : BState} (hb : BInv b) (hbd : BBound b) (h : WTrans b b')
+theorem bbound_wtrans {b b' : BState} (hb : BInv b) (hrun : b.g.shutting = false) (hbd : BBound b) (h : WTrans b b')
     (hsafe : ∀ id w hh wk, b.w = .update id w hh → b.g.adm.kw.get? id = some wk →
       w - wk.weight ≤ b.g.adm.max - b.g.adm.used) : BBound b' := by
-  have hstale := hb.staleSpace
+  have hstale := (hb.acct hrun).staleSpace
+  clear hrun
   have hvict := hb.pendingPos.2.2.1
   unfold BBound at hbd ⊢
   cases h
@@ -292,10 +530,12 @@ theorem BBound.frame {b b' : BState} (hbd : BBound b) (hadm : b'.g.adm = b.g.adm
   rw [hadm, hw]; exact hbd
 
 /-- PARTIAL (the statement without the side condition is false of the code: the worker's `UpdateWeight` applies any
-    increase without looking at the limit — `Cached.C01_counterexample`).  Every action of every thread preserves the
-    bound, except the worker's `UpdateWeight` whose increase exceeds the free space. -/
+    increase without looking at the limit — `Cached.C01_counterexample`).  While the cache is running (`hrun`: the
+    state AFTER the action is still running, hence so is the state before), every action of every thread preserves
+    the bound, except the worker's `UpdateWeight` whose increase exceeds the free space. -/
 theorem C01_layerB_bound_partial {b b' : BState} {a : Act} {o o' : Oracle} (hb : BInv b) (hbd : BBound b)
-    (h : stepB b a o = .ok (b', o')) (hsafe : ¬ UnsafeUpdate b a) : BBound b' := by
+    (h : stepB b a o = .ok (b', o')) (hsafe : ¬ UnsafeUpdate b a) (hrun : b'.g.shutting = false) : BBound b' := by
+  have hrun0 : b.g.shutting = false := stepB_running_before h hrun
   cases a with
   | issue i r =>
     simp only [stepB] at h
@@ -308,10 +548,12 @@ theorem C01_layerB_bound_partial {b b' : BState} {a : Act} {o o' : Oracle} (hb :
       · cases hi
     · cases h
   | client i =>
-    obtain ⟨hw, _, _, _, hadm, _⟩ := ctrans_frame (clientAct_trans h)
-    exact hbd.frame hadm hw
+    obtain ⟨hw, _⟩ := ctrans_frame (clientAct_trans h)
+    rcases ctrans_adm (clientAct_trans h) with hadm | ⟨pc, hpc, ha, _⟩
+    · exact hbd.frame hadm hw
+    · rw [hb.shutFlag i pc hpc ha] at hrun0; cases hrun0
   | worker =>
-    refine bbound_wtrans hb hbd (workerAct_trans h) ?_
+    refine bbound_wtrans hb hrun0 hbd (workerAct_trans h) ?_
     intro id w hh wk hw hg
     by_cases hlt : w - wk.weight > b.g.adm.max - b.g.adm.used
     · exact absurd ⟨rfl, id, w, hh, hw, wk, hg, hlt⟩ hsafe
@@ -336,7 +578,8 @@ theorem C01_layerB_bound_partial {b b' : BState} {a : Act} {o o' : Oracle} (hb :
 
 /-- interleavings in which no worker `UpdateWeight` action exceeds the free space -/
 inductive ReachSafe (cfg : Cfg) (now : Nat) (seeds : List Nat) (clients : Nat) : BState → Prop where
-  | init : ReachSafe cfg now seeds clients (BState.init cfg now seeds clients)
+  | init (shardMap : List (Nat × Nat)) :
+      ReachSafe cfg now seeds clients { BState.init cfg now seeds clients with storeShard := shardMap }
   | step {b b' : BState} {a : Act} {o o' : Oracle} :
       ReachSafe cfg now seeds clients b → stepB b a o = .ok (b', o') → ¬ UnsafeUpdate b a →
       ReachSafe cfg now seeds clients b'
@@ -344,7 +587,7 @@ inductive ReachSafe (cfg : Cfg) (now : Nat) (seeds : List Nat) (clients : Nat) :
 theorem ReachSafe.reach {cfg : Cfg} {now : Nat} {seeds : List Nat} {clients : Nat} {b : BState}
     (h : ReachSafe cfg now seeds clients b) : Reach cfg now seeds clients b := by
   induction h with
-  | init => exact .init
+  | init sm => exact .init sm
   | step _ hs _ ih => exact .step ih hs
 
 /-- no action changes the configuration -/
@@ -360,7 +603,7 @@ theorem stepB_cfg {b b' : BState} {a : Act} {o o' : Oracle} (h : stepB b a o = .
       · simp only [Except.ok.injEq] at hi; subst hi; rfl
       · cases hi
     · cases h
-  | client i => exact (ctrans_frame (clientAct_trans h)).2.2.2.2.2
+  | client i => exact (ctrans_frame (clientAct_trans h)).2.2.2.2.2.1
   | worker => exact wtrans_cfg (workerAct_trans h)
   | sweeper v =>
     simp only [stepB] at h
@@ -384,7 +627,7 @@ theorem stepB_cfg {b b' : BState} {a : Act} {o o' : Oracle} (h : stepB b a o = .
 theorem reach_cfg {cfg : Cfg} {now : Nat} {seeds : List Nat} {clients : Nat} {b : BState}
     (h : Reach cfg now seeds clients b) : b.g.cfg = cfg := by
   induction h with
-  | init => rfl
+  | init _ => rfl
   | step _ hs ih => rw [stepB_cfg hs, ih]
 
 theorem bbound_init (cfg : Cfg) (now : Nat) (seeds : List Nat) (clients : Nat) (h : 0 ≤ cfg.maxWeight) :
@@ -392,19 +635,21 @@ theorem bbound_init (cfg : Cfg) (now : Nat) (seeds : List Nat) (clients : Nat) (
   simp [BBound, BState.init, State.init, h]
 
 theorem reachSafe_bbound {cfg : Cfg} {now : Nat} {seeds : List Nat} {clients : Nat} {b : BState}
-    (h : ReachSafe cfg now seeds clients b) (hmax : 0 ≤ cfg.maxWeight) : BBound b := by
+    (h : ReachSafe cfg now seeds clients b) (hmax : 0 ≤ cfg.maxWeight) (hrun : b.g.shutting = false) : BBound b := by
   induction h with
-  | init => exact bbound_init cfg now seeds clients hmax
-  | step hr hs hsafe ih => exact C01_layerB_bound_partial (binv_reach hr.reach) ih hs hsafe
+  | init _ => exact bbound_init cfg now seeds clients hmax
+  | step hr hs hsafe ih =>
+    exact C01_layerB_bound_partial (binv_reach hr.reach) (ih (stepB_running_before hs hrun)) hs hsafe hrun
 
 /-- PARTIAL (side condition `ReachSafe`, see `C01_layerB_bound_partial`): along every interleaving none of whose worker
-    `UpdateWeight` actions exceeds the free space, the total lies within `[0, maxWeight]` AT EVERY INSTANT. -/
+    `UpdateWeight` actions exceeds the free space, the total lies within `[0, maxWeight]` AT EVERY INSTANT at which
+    the cache is still running. -/
 theorem C01_layerB_bound_partial' {cfg : Cfg} {now : Nat} {seeds : List Nat} {clients : Nat} {b : BState}
-    (h : ReachSafe cfg now seeds clients b) (hmax : 0 ≤ cfg.maxWeight) :
+    (h : ReachSafe cfg now seeds clients b) (hmax : 0 ≤ cfg.maxWeight) (hrun : b.g.shutting = false) :
     0 ≤ b.g.adm.used ∧ b.g.adm.used ≤ cfg.maxWeight := by
   have hb := binv_reach h.reach
-  refine ⟨hb.used_nonneg, ?_⟩
-  have hbd := reachSafe_bbound h hmax
+  refine ⟨hb.used_nonneg hrun, ?_⟩
+  have hbd := reachSafe_bbound h hmax hrun
   have hm : b.g.adm.max = cfg.maxWeight := by rw [hb.maxFixed, reach_cfg h.reach]
   unfold BBound at hbd
   rw [hm] at hbd
@@ -461,8 +706,8 @@ theorem soft_wtrans {b b' : BState} (hb : BInv b) (h : WTrans b b') : SoftStep b
     simp [occ, hc, WPc.freshId?] at this
   cases h
   case evStore => simp only [applyEvict_store]; exact SoftStep.del _ _
-  case storePutPlain c hw ht => exact SoftStep.setFresh _ _ _ (hfresh c hw)
-  case storePutTtl c t e hw ht => exact SoftStep.setFresh _ _ _ (hfresh c hw)
+  case storePutPlain c hw ht _ => exact SoftStep.setFresh _ _ _ (hfresh c hw)
+  case storePutTtl c t e hw ht _ => exact SoftStep.setFresh _ _ _ (hfresh c hw)
   case delStoreSome => exact SoftStep.del _ _
   all_goals exact SoftStep.refl _
 
@@ -475,12 +720,15 @@ theorem soft_strans {b b' : BState} (h : STrans b b') : SoftStep b.g.store b'.g.
 theorem soft_ctrans {b b' : BState} {i : Nat} (h : CTrans b i b') : SoftStep b.g.store b'.g.store := by
   cases h
   case getPool hp => rw [poolAdd_frame hp]; exact SoftStep.refl _
-  case delMark k hpc =>
+  case refPool hp => rw [poolAdd_frame hp]; exact SoftStep.refl _
+  case shutLocal hg => rw [hg]; exact SoftStep.refl _
+  case shutStoreClear => exact fun _ _ _ _ => Or.inl rfl
+  case delMark k hpc _ =>
     simp only [setClient]
     split
     · rename_i e he; exact SoftStep.setKeep _ _ e _ he (fun _ => rfl)
     · exact SoftStep.refl _
-  case upUpdate k v w ttl rm e ne uw hpc he => exact SoftStep.setKeep _ _ e _ he (fun h => h)
+  case upUpdate k v w ttl rm e ne uw hpc he _ => exact SoftStep.setKeep _ _ e _ he (fun h => h)
   case upAfterSame id uw old new hpc =>
     rcases upAfterIndex_spec b i id uw with ⟨_, h⟩ | ⟨_, _, h⟩ | h <;> rw [h] <;> exact SoftStep.refl _
   case upAfterPut pc id e uw _ _ _ =>
@@ -571,20 +819,45 @@ theorem C02_layerB_get_pool {b b' : BState} {i k v : Nat} {o o' : Oracle} (hpc :
     exact ⟨rfl, rfl⟩
   · cases h
 
-theorem wtrans_cl {b b' : BState} (h : WTrans b b') : b'.cl = b.cl := by
-  cases h <;> simp [finishCmd, rejectCmd]
+/-- The `store.get` action of a `get_ref(k)`: a miss finishes the call with `None`; a hit takes the read guard of the
+    key's store shard and moves on to `pool.add` carrying the value of the CURRENT, alive entry of `k`. -/
+theorem C02_layerB_ref_store {b b' : BState} {i k : Nat} {o o' : Oracle} (hpc : b.cl[i]? = some (.refStore k))
+    (h : clientAct b i o = .ok (b', o')) :
+    ((∃ e, b.g.store.get? k = some e ∧ e.alive b.g.now = true ∧ b'.cl = b.cl.set i (.refPool k e.value) ∧
+        b'.res = b.res ∧ b'.storeReaders = (i, storeShardOf b k) :: b.storeReaders) ∨
+     ((∀ e, b.g.store.get? k = some e → e.alive b.g.now = false) ∧ b'.cl = b.cl.set i .idle ∧
+        b'.res = b.res.set i (.value none :: b.res.getD i []) ∧ b'.storeReaders = b.storeReaders)) ∧
+    b'.g.store = b.g.store ∧ o' = o := by
+  unfold clientAct at h
+  simp only [hpc] at h
+  split at h
+  · rename_i e he
+    split at h
+    · rename_i ha
+      simp only [Except.ok.injEq, Prod.mk.injEq] at h; obtain ⟨rfl, rfl⟩ := h
+      exact ⟨Or.inl ⟨e, he, ha, rfl, rfl, rfl⟩, rfl, rfl⟩
+    · rename_i ha
+      simp only [Except.ok.injEq, Prod.mk.injEq] at h; obtain ⟨rfl, rfl⟩ := h
+      refine ⟨Or.inr ⟨?_, rfl, rfl, rfl⟩, rfl, rfl⟩
+      intro e' he'
+      rw [he] at he'; cases he'
+      simpa using ha
+  · rename_i he
+    simp only [Except.ok.injEq, Prod.mk.injEq] at h; obtain ⟨rfl, rfl⟩ := h
+    refine ⟨Or.inr ⟨?_, rfl, rfl, rfl⟩, rfl, rfl⟩
+    intro e' he'
+    rw [he] at he'; cases he'
 
-theorem ctrans_cl {b b' : BState} {j : Nat} (h : CTrans b j b') : ∃ pc', b'.cl = b.cl.set j pc' := by
-  cases h
-  case upAfterSame id uw old new hpc =>
-    rcases upAfterIndex_spec b j id uw with ⟨_, h⟩ | ⟨_, _, h⟩ | h <;> rw [h] <;> exact ⟨_, rfl⟩
-  case upAfterPut pc id e uw _ _ _ =>
-    rcases upAfterIndex_spec { b with g := ttlPut b.g id e } j id uw with ⟨_, h⟩ | ⟨_, _, h⟩ | h <;> rw [h] <;>
-      exact ⟨_, rfl⟩
-  case upAfterDelete id e uw _ _ =>
-    rcases upAfterIndex_spec { b with g := ttlDelete b.g id e } j id uw with ⟨_, h⟩ | ⟨_, _, h⟩ | h <;> rw [h] <;>
-      exact ⟨_, rfl⟩
-  all_goals exact ⟨_, rfl⟩
+/-- While client `i` keeps the guard, no other thread writes to that store shard — in particular the entry the
+    reference points to is neither removed nor overwritten: every store write of another thread to a key of that
+    shard is not enabled. -/
+theorem C02_layerB_ref_guard_excludes_writers {b : BState} {i k v : Nat} (hb : BInv b)
+    (hpc : b.cl[i]? = some (.refPool k v)) {k' : Nat} (hsh : storeShardOf b k' = storeShardOf b k)
+    {t : Option Nat} (ht : t ≠ some i) : storeWritable b k' t = false := by
+  have hmem := hb.guards.2.2 i k v hpc
+  unfold storeWritable
+  simp only [Bool.not_eq_false', List.any_eq_true, Bool.and_eq_true, beq_iff_eq, bne_iff_ne, ne_eq]
+  exact ⟨_, hmem, hsh.symm, fun e => ht e.symm⟩
 
 /-- Nobody but client `i` itself moves client `i`: between its `store.get` and its `pool.add` the value it carries
     cannot be touched by any other thread. -/
@@ -605,9 +878,9 @@ theorem other_threads_keep_pc {b b' : BState} {a : Act} {o o' : Oracle} {i : Nat
     · cases h
   | client j =>
     have hne : j ≠ i := by intro e; subst e; exact h1 rfl
-    obtain ⟨pc', hcl⟩ := ctrans_cl (clientAct_trans h)
+    obtain ⟨_, pc', _, hcl, _⟩ := ctrans_cl (clientAct_trans h)
     rw [hcl, List.getElem?_set_ne hne]
-  | worker => rw [wtrans_cl (workerAct_trans h)]
+  | worker => rw [(wtrans_cl (workerAct_trans h)).1]
   | sweeper v =>
     simp only [stepB] at h
     split at h
@@ -646,7 +919,10 @@ theorem C02_layerB_read_current {b0 b1 b2 b3 : BState} {i k : Nat} {o0 o1 o2 o3 
     apply hbusy
     rw [hcl, List.getElem?_set_self hlt]
 
-/-! ## concrete interleavings (non-vacuity) -/
+/-! ## C13  shutdown — at action granularity
+
+  `CacheD::shutdown` is eleven atomic actions of the calling client (`shutCas` … `shutTtlClear`); the worker, the
+  sweeper, the consumer and the other clients run in between. -/
 
 /-- runs a list of actions, each with its own oracle -/
 def runB : BState → List (Act × Oracle) → Except String BState
@@ -670,6 +946,186 @@ theorem reach_runB {cfg : Cfg} {now : Nat} {seeds : List Nat} {clients : Nat} :
     · rename_i b1 o1 hs
       exact ih (.step hr hs) h
     · cases h
+
+/-- what a request issued after the flag is set returns: `Err(CommandSendError)` for the writes, `None` for the reads -/
+def refusal : Req → Out
+  | .get _ | .getRef _ => .value none
+  | _ => .err
+
+/-- `finishCall` returns the call of client `i` and touches nothing else. -/
+theorem finishCall_frame (b : BState) (i : Nat) (out : Out) :
+    (finishCall b i out).g = b.g ∧ (finishCall b i out).w = b.w ∧ (finishCall b i out).sw = b.sw ∧
+    (finishCall b i out).wuOwner = b.wuOwner ∧ (finishCall b i out).ttlOwner = b.ttlOwner ∧
+    (finishCall b i out).storeReaders = b.storeReaders ∧ (finishCall b i out).storeShard = b.storeShard ∧
+    (finishCall b i out).cl = b.cl.set i .idle ∧ (finishCall b i out).res = b.res.set i (out :: b.res.getD i []) :=
+  ⟨rfl, rfl, rfl, rfl, rfl, rfl, rfl, rfl, rfl⟩
+
+/-- C13 (refusal): once the flag is set, the FIRST action of every new request other than `total_weight_used` and
+    `shutdown` finishes the call — with `Err` (put, delete, put_or_update) or `None` (get, get_ref) — consumes no
+    oracle value and changes nothing else (`finishCall_frame`): no store, admission, queue or lock is touched. -/
+theorem C13_layerB_refuses {b : BState} {i : Nat} {r : Req} (o : Oracle) (hs : b.g.shutting = true)
+    (hpc : b.cl[i]? = some (.start r)) (h1 : r ≠ .weight) (h2 : r ≠ .shutdown) :
+    clientAct b i o = .ok (finishCall b i (refusal r), o) := by
+  unfold clientAct
+  simp only [hpc, hs, if_true]
+  cases r with
+  | weight => exact absurd rfl h1
+  | shutdown => exact absurd rfl h2
+  | _ => rfl
+
+theorem refusal_writes (k v : Nat) (w : Int) (ttl : Option Nat) (uv : Option Nat) (uw : Option Int) (rm : Bool) :
+    refusal (.putW k v w ttl) = .err ∧ refusal (.delete k) = .err ∧ refusal (.upsert k uv uw ttl rm) = .err :=
+  ⟨rfl, rfl, rfl⟩
+
+theorem refusal_reads (k : Nat) : refusal (.get k) = .value none ∧ refusal (.getRef k) = .value none := ⟨rfl, rfl⟩
+
+/-- C13 (the flag is permanent): no action of any thread resets it … -/
+theorem C13_layerB_flag_permanent {b b' : BState} {a : Act} {o o' : Oracle} (h : stepB b a o = .ok (b', o'))
+    (hs : b.g.shutting = true) : b'.g.shutting = true :=
+  stepB_shutting_mono h hs
+
+/-- … hence it stays set along every continuation of every interleaving. -/
+theorem C13_layerB_flag_permanent_run :
+    ∀ (l : List (Act × Oracle)) {b b' : BState}, runB b l = .ok b' → b.g.shutting = true → b'.g.shutting = true := by
+  intro l
+  induction l with
+  | nil => intro b b' h hs; simp only [runB, Except.ok.injEq] at h; subst h; exact hs
+  | cons x l ih =>
+    intro b b' h hs
+    obtain ⟨a, o⟩ := x
+    simp only [runB] at h
+    split at h
+    · rename_i b1 o1 hstep
+      exact ih h (stepB_shutting_mono hstep hs)
+    · cases h
+
+/-- C13 (the first `shutdown`): the compare-and-swap on an unset flag sets it, moves the caller on to the send of
+    `Shutdown`, and touches nothing else. -/
+theorem C13_layerB_first_shutdown_sets_flag {b : BState} {i : Nat} (o : Oracle) (hs : b.g.shutting = false)
+    (hpc : b.cl[i]? = some .shutCas) :
+    clientAct b i o = .ok (setClient { b with g := { b.g with shutting := true } } i .shutSendCmd, o) := by
+  unfold clientAct
+  simp only [hpc, hs]
+  rfl
+
+/-- C13 (a second `shutdown`): the compare-and-swap on a set flag finishes the call at once, with `()`, and changes
+    nothing else — whatever the first `shutdown` is doing at that moment. -/
+theorem C13_layerB_second_shutdown_returns {b : BState} {i : Nat} (o : Oracle) (hs : b.g.shutting = true)
+    (hpc : b.cl[i]? = some .shutCas) :
+    clientAct b i o = .ok (finishCall b i .none, o) := by
+  unfold clientAct
+  simp only [hpc, hs, if_true]
+
+/-- … and a `shutdown()` issued after the flag is set reaches that compare-and-swap by its first action. -/
+theorem C13_layerB_second_shutdown_start {b : BState} {i : Nat} (o : Oracle) (hpc : b.cl[i]? = some (.start .shutdown)) :
+    clientAct b i o = .ok (setClient b i .shutCas, o) := by
+  unfold clientAct
+  simp only [hpc]
+  split <;> rfl
+
+/-- C13 (the worker executes `Shutdown`): it acknowledges the command as accepted, moves to `worker.drain` and
+    records the mode `draining`. -/
+theorem C13_layerB_worker_shutdown {b : BState} (o : Oracle) {h : Option Nat} {q : List (Cmd × Option Nat)}
+    (hw : b.w = .recv) (hq : b.g.queue = (.shutdown, h) :: q) :
+    workerAct b o = .ok ({ b with g := { b.g with queue := q, acks := setAck b.g.acks h .accepted, worker := .draining },
+                                  w := .drain }, o) := by
+  simp only [workerAct, hw, hq]
+  rfl
+
+/-- C13 (draining): at `worker.drain` EVERY worker action takes the head command, whatever it is, answers it
+    `ShuttingDown`, executes nothing, and stays at `worker.drain` (with an empty queue the worker waits). -/
+theorem C13_layerB_draining {b : BState} (o : Oracle) (hw : b.w = .drain) :
+    (b.g.queue = [] ∧ workerAct b o = .error "not enabled: the command queue is empty") ∨
+    (∃ cmd h q, b.g.queue = (cmd, h) :: q ∧
+      workerAct b o = .ok ({ b with g := { b.g with queue := q, acks := setAck b.g.acks h .shuttingDown }, w := .drain }, o)) := by
+  cases hq : b.g.queue with
+  | nil => exact Or.inl ⟨rfl, by simp only [workerAct, hw, hq]⟩
+  | cons p q =>
+    obtain ⟨cmd, h⟩ := p
+    exact Or.inr ⟨cmd, h, q, rfl, by simp only [workerAct, hw, hq]; rfl⟩
+
+@[simp] theorem applyEvict_worker (g : State) (e : Evicted) : (applyEvict g e).worker = g.worker := by
+  obtain ⟨i, k, w⟩ := e; simp only [applyEvict]; split <;> rfl
+
+theorem ctrans_worker {b b' : BState} {i : Nat} (h : CTrans b i b') : b'.g.worker = b.g.worker := by
+  cases h
+  case getPool hp => rw [poolAdd_frame hp]; rfl
+  case refPool hp => rw [poolAdd_frame hp]; rfl
+  case shutLocal hg => rw [hg]; rfl
+  case upAfterSame => rcases upAfterIndex_spec b i _ _ with ⟨_, h⟩ | ⟨_, _, h⟩ | h <;> rw [h] <;> rfl
+  case upAfterPut id e uw _ _ _ =>
+    rcases upAfterIndex_spec { b with g := ttlPut b.g id e } i id uw with ⟨_, h⟩ | ⟨_, _, h⟩ | h <;> rw [h] <;> rfl
+  case upAfterDelete id e uw _ _ =>
+    rcases upAfterIndex_spec { b with g := ttlDelete b.g id e } i id uw with ⟨_, h⟩ | ⟨_, _, h⟩ | h <;> rw [h] <;> rfl
+  all_goals rfl
+
+/-- the worker stands at `worker.drain` exactly when the shared mode says `draining` -/
+def DrainInv (b : BState) : Prop := b.w = .drain ↔ b.g.worker = .draining
+
+theorem drainInv_step {b b' : BState} {a : Act} {o o' : Oracle} (hd : DrainInv b) (h : stepB b a o = .ok (b', o')) :
+    DrainInv b' := by
+  unfold DrainInv at hd ⊢
+  cases a with
+  | issue i r =>
+    simp only [stepB] at h
+    split at h
+    · rename_i b1 hi
+      simp only [Except.ok.injEq, Prod.mk.injEq] at h; obtain ⟨rfl, rfl⟩ := h
+      unfold issue at hi
+      split at hi
+      · simp only [Except.ok.injEq] at hi; subst hi; exact hd
+      · cases hi
+    · cases h
+  | client i =>
+    have ht := clientAct_trans h
+    rw [(ctrans_frame ht).1, ctrans_worker ht]; exact hd
+  | worker =>
+    have ht := workerAct_trans h
+    cases ht
+    all_goals simp [finishCmd, rejectCmd, ttlPut, ttlDelete, *] at *
+    all_goals assumption
+  | sweeper v =>
+    simp only [stepB] at h
+    split at h
+    · rename_i b1 hs'
+      simp only [Except.ok.injEq, Prod.mk.injEq] at h; obtain ⟨rfl, rfl⟩ := h
+      have ht := sweeperAct_trans hs'
+      have hw : b1.g.worker = b.g.worker := by
+        cases ht
+        all_goals simp [sweepNext_g]
+      rw [(strans_frame ht).1, hw]; exact hd
+    · cases h
+  | consumer =>
+    simp only [stepB] at h
+    split at h
+    · rename_i g' out o1 hc
+      simp only [Except.ok.injEq, Prod.mk.injEq] at h; obtain ⟨rfl, rfl⟩ := h
+      show b.w = .drain ↔ g'.worker = .draining
+      rw [consumerStep_frame hc]; exact hd
+    · cases h
+  | advance d =>
+    simp only [stepB, Except.ok.injEq, Prod.mk.injEq] at h; obtain ⟨rfl, rfl⟩ := h
+    exact hd
+
+theorem C13_layerB_drain_inv {cfg : Cfg} {now : Nat} {seeds : List Nat} {clients : Nat} {b : BState}
+    (h : Reach cfg now seeds clients b) : b.w = .drain ↔ b.g.worker = .draining := by
+  induction h with
+  | init _ => simp [BState.init, State.init]
+  | step _ hs ih => exact drainInv_step ih hs
+
+/-- C13 (draining, at every reachable state): once the worker has executed `Shutdown` (the shared mode says
+    `draining`), every worker action answers the head command `ShuttingDown` and the worker keeps draining. -/
+theorem C13_layerB_draining_reach {cfg : Cfg} {now : Nat} {seeds : List Nat} {clients : Nat} {b : BState}
+    (h : Reach cfg now seeds clients b) (hd : b.g.worker = .draining) (o : Oracle) :
+    (b.g.queue = [] ∧ workerAct b o = .error "not enabled: the command queue is empty") ∨
+    (∃ cmd hh q b', b.g.queue = (cmd, hh) :: q ∧ workerAct b o = .ok (b', o) ∧
+      b'.g.acks = setAck b.g.acks hh .shuttingDown ∧ b'.g.queue = q ∧ b'.g.worker = .draining ∧ b'.w = .drain ∧
+      b'.g.store = b.g.store ∧ b'.g.adm = b.g.adm ∧ b'.g.ttl = b.g.ttl) := by
+  rcases C13_layerB_draining o ((C13_layerB_drain_inv h).mpr hd) with h' | ⟨cmd, hh, q, hq, hw⟩
+  · exact Or.inl h'
+  · exact Or.inr ⟨cmd, hh, q, _, hq, hw, rfl, rfl, hd, rfl, rfl, rfl, rfl⟩
+
+/-! ## concrete interleavings (non-vacuity) -/
 
 def cfgEx : Cfg := { maxWeight := 10, shards := 1, cmdCap := 4, poolSize := 1, bufSize := 2, counters := 2 }
 
@@ -715,7 +1171,7 @@ theorem layerB_midflight_reachable :
     refine ⟨_, rfl, ?_⟩
     decide
   obtain ⟨b, hr, hrest⟩ := hrun
-  exact ⟨b, reach_runB _ .init hr, hrest⟩
+  exact ⟨b, reach_runB _ (.init []) hr, hrest⟩
 
 /-- keys 1 (weight 3, TTL) and 2 (weight 3) are in; key 1 expires and the sweeper stops before its `wu.sub`, owning
     shard 0; a put of weight 8 makes the worker evict key 2 and stop at `store.remove`, owning `weight_used` -/
@@ -762,7 +1218,7 @@ theorem C01_layerB_counterexample :
     simp only [stepB, workerAct, hw, wuFree, ho, workerUpdateWeight, hg, hu]
     exact ⟨_, rfl, by simp [finishCmd], hm, rfl⟩
   obtain ⟨b', hs, hu', hm', hw'⟩ := hstep
-  refine ⟨b, b', reach_runB _ .init hr, ?_, ⟨rfl, 1, 300, some 1, hw, ⟨1, 1, 5⟩, hg, ?_⟩, hs, hu', ?_, ?_⟩
+  refine ⟨b, b', reach_runB _ (.init []) hr, ?_, ⟨rfl, 1, 300, some 1, hw, ⟨1, 1, 5⟩, hg, ?_⟩, hs, hu', ?_, ?_⟩
   · simp only [BBound, hw, hu, hm]; decide
   · rw [hu, hm]; decide
   · rw [hu']; decide
@@ -801,7 +1257,201 @@ example :
 
 /-- Non-vacuity of `C01_layerB_bound_partial'`, `C05_layerB_at_rest`: a `ReachSafe` state that is at rest. -/
 example : ∃ b, ReachSafe cfgEx 0 [1, 2, 3, 4] 2 b ∧ pendingAdd b = 0 ∧ pendingSub b = 0 :=
-  ⟨_, .init, rfl, rfl⟩
+  ⟨_, .init [], rfl, rfl⟩
+
+/-! ### shutdown and `get_ref` guards: counterexamples and non-vacuity -/
+
+/-- put key 1 (weight 3); the worker runs it up to just BEFORE `wu.add` (the charge is in `kw`, not yet in `used`);
+    client 1 calls `shutdown()` and runs it up to and including `shutdown.wu_zero` (nine actions after the issue:
+    start, cas, cmd.send, buf.send, consumer_flag, ticker_flag, store_clear, kw_clear, wu_zero) -/
+def voidRun : List (Act × Oracle) :=
+  call 0 (.putW 1 100 3 none) 4 ++ workerN 4 ++ call 1 .shutdown 9
+
+/-- **Why the accounting group of `BInv` is guarded by the shutdown flag.**  A reachable state — a `shutdown()` has
+    run between the worker's `kw.insert` and its `wu.add`, and stands just after `shutdown.wu_zero` — in which the
+    accounting identity FAILS (`used = 0`, `Σ kw = 0`, but `3` are still to be added), and so does `addCharged`
+    (the worker stands at `wu.add`, its id is no longer charged).  The flag is set. -/
+theorem layerB_accounting_void_after_shutdown :
+    ∃ b, Reach cfgEx 0 [1, 2, 3, 4] 2 b ∧ b.g.shutting = true ∧ b.cl[1]? = some .shutAfClear ∧
+      (∃ c, b.w = .add c ∧ b.g.adm.kw.get? c.id = none) ∧
+      pendingAdd b = 3 ∧ pendingSub b = 0 ∧ b.g.adm.used = 0 ∧ sumW b.g.adm.kw = 0 ∧
+      b.g.adm.used ≠ sumW b.g.adm.kw - pendingAdd b + pendingSub b ∧ ¬ BAcct b := by
+  have hrun : ∃ b, runB (BState.init cfgEx 0 [1, 2, 3, 4] 2) voidRun = .ok b ∧ b.g.shutting = true ∧
+      b.cl[1]? = some .shutAfClear ∧ (∃ c, b.w = .add c ∧ b.g.adm.kw.get? c.id = none) ∧
+      pendingAdd b = 3 ∧ pendingSub b = 0 ∧ b.g.adm.used = 0 ∧ sumW b.g.adm.kw = 0 ∧
+      b.g.adm.used ≠ sumW b.g.adm.kw - pendingAdd b + pendingSub b := by
+    refine ⟨_, rfl, ?_⟩
+    exact ⟨rfl, rfl, ⟨⟨1, 1, 3, 1, 100, none, some 0⟩, rfl, by decide⟩, by decide, by decide, by decide, by decide,
+      by decide⟩
+  obtain ⟨b, hr, h1, h2, h3, h4, h5, h6, h7, h8⟩ := hrun
+  exact ⟨b, reach_runB _ (.init []) hr, h1, h2, h3, h4, h5, h6, h7, h8, fun h => h8 h.sum⟩
+
+/-- … and the damage is permanent: the worker then completes its put (`wu.add`, `store.put`); everything is at rest,
+    `key_weights` is empty, and `total_weight_used` reads 3. -/
+example :
+    (match runB (BState.init cfgEx 0 [1, 2, 3, 4] 2) (voidRun ++ workerN 2 ++ call 0 .weight 2) with
+     | .ok b =>
+       (match b.w with | .recv => true | _ => false) &&
+       decide (pendingAdd b = 0 ∧ pendingSub b = 0 ∧ b.g.adm.used = 3 ∧ sumW b.g.adm.kw = 0 ∧ b.g.shutting = true) &&
+       (match b.res[0]? with
+        | some (Out.weight w :: _) => decide (w = 3)
+        | _ => false)
+     | _ => false) = true := by decide
+
+/-- put key 1 (weight 3) and let the worker finish it; `delete(1)`; the worker runs the `Delete` up to just BEFORE
+    `wu.sub` (the charge is out of `kw`, still in `used`); `shutdown()` up to and including `wu_zero`; then the
+    worker's `wu.sub` -/
+def negRun : List (Act × Oracle) :=
+  call 0 (.putW 1 100 3 none) 4 ++ workerN 6 ++ call 0 (.delete 1) 3 ++ workerN 3 ++ call 1 .shutdown 9 ++ workerN 1
+
+/-- **C01 is void after a shutdown**: a reachable state, everything at rest, in which the total is NEGATIVE
+    (`shutdown()` zeroed `weight_used` between the worker's `kw.remove` and its `wu.sub`). -/
+theorem layerB_negative_after_shutdown :
+    ∃ b, Reach cfgEx 0 [1, 2, 3, 4] 2 b ∧ b.g.shutting = true ∧ pendingAdd b = 0 ∧ pendingSub b = 0 ∧
+      b.g.adm.used = -3 ∧ ¬ 0 ≤ b.g.adm.used ∧ b.g.adm.used ≠ sumW b.g.adm.kw := by
+  have hrun : ∃ b, runB (BState.init cfgEx 0 [1, 2, 3, 4] 2) negRun = .ok b ∧ b.g.shutting = true ∧
+      pendingAdd b = 0 ∧ pendingSub b = 0 ∧ b.g.adm.used = -3 ∧ ¬ 0 ≤ b.g.adm.used ∧ b.g.adm.used ≠ sumW b.g.adm.kw := by
+    refine ⟨_, rfl, ?_⟩
+    exact ⟨rfl, by decide, by decide, by decide, by decide, by decide⟩
+  obtain ⟨b, hr, hrest⟩ := hrun
+  exact ⟨b, reach_runB _ (.init []) hr, hrest⟩
+
+/-- Non-vacuity of the guarded C05 / C01: `midFlight` is a RUNNING state (flag unset) with both corrections non-zero. -/
+example :
+    (match runB (BState.init cfgEx 0 [1, 2, 3, 4] 2) midFlight with
+     | .ok b => decide (b.g.shutting = false ∧ pendingAdd b = 4 ∧ pendingSub b = 3)
+     | _ => false) = true := by decide
+
+/-- A shutdown runs BETWEEN the worker's `kw.insert` and `wu.add`; meanwhile client 0 is inside a `delete(1)` whose
+    command is sent after `Shutdown`.  Then the worker completes its put, executes `Shutdown`, and drains. -/
+def drainRun : List (Act × Oracle) :=
+  call 0 (.putW 1 100 3 none) 4 ++ workerN 4 ++ call 0 (.delete 1) 2 ++ call 1 .shutdown 3 ++ [(.client 0, noO)] ++
+  List.replicate 9 (.client 1, noO) ++ workerN 3
+
+/-- Non-vacuity of C13: in `drainRun`
+    * the whole `shutdown()` (twelve actions) returned `()`, the flag is set, the worker stands at `worker.drain` and
+      the mode says `draining` (`C13_layerB_worker_shutdown`, `C13_layerB_drain_inv`);
+    * the worker's next action answers the queued `Delete` with `ShuttingDown` and keeps draining
+      (`C13_layerB_draining`);
+    * a new `put` is refused with `Err` by its first action, a new `get` and a new `get_ref` with `None`
+      (`C13_layerB_refuses`), the store, the charges and the queue untouched;
+    * a second `shutdown()` returns `()` after two actions (`C13_layerB_second_shutdown_returns`). -/
+example :
+    (match runB (BState.init cfgEx 0 [1, 2, 3, 4] 2) drainRun with
+     | .ok b =>
+       decide (b.g.shutting = true ∧ b.g.worker = .draining ∧ b.g.acks = [.accepted, .pending] ∧ b.g.queue.length = 1) &&
+       (match b.w with | .drain => true | _ => false) &&
+       (match b.res[1]? with | some [Out.none] => true | _ => false) &&
+       (match runB b [(.worker, noO)] with
+        | .ok b1 => decide (b1.g.acks = [.accepted, .shuttingDown] ∧ b1.g.queue.length = 0 ∧ b1.g.worker = .draining) &&
+            (match b1.w with | .drain => true | _ => false)
+        | _ => false) &&
+       (match runB b (call 0 (.putW 2 200 4 none) 1) with
+        | .ok b1 => (match b1.res[0]? with | some (Out.err :: _) => true | _ => false) &&
+            decide (b1.g.queue.length = 1 ∧ b1.g.nextId = b.g.nextId ∧ b1.g.adm.used = b.g.adm.used)
+        | _ => false) &&
+       (match runB b (call 0 (.get 1) 1) with
+        | .ok b1 => (match b1.res[0]? with | some (Out.value none :: _) => true | _ => false)
+        | _ => false) &&
+       (match runB b (call 0 (.getRef 1) 1) with
+        | .ok b1 => (match b1.res[0]? with | some (Out.value none :: _) => true | _ => false) &&
+            decide (b1.storeReaders = [])
+        | _ => false) &&
+       (match runB b (call 0 .shutdown 2) with
+        | .ok b1 => (match b1.res[0]?, b1.cl[0]? with | some (Out.none :: _), some CPc.idle => true | _, _ => false)
+        | _ => false)
+     | _ => false) = true := by decide
+
+/-- the hypotheses of `C13_layerB_refuses`, `C13_layerB_second_shutdown_returns`, `C13_layerB_draining_reach` hold at
+    reachable states -/
+example : ∃ b, Reach cfgEx 0 [1, 2, 3, 4] 2 b ∧ b.g.shutting = true ∧ b.g.worker = .draining ∧
+    b.cl[0]? = some (.start (.putW 2 200 4 none)) ∧ b.cl[1]? = some .shutCas := by
+  have hrun : ∃ b, runB (BState.init cfgEx 0 [1, 2, 3, 4] 2)
+      (drainRun ++ [(.issue 0 (.putW 2 200 4 none), noO), (.issue 1 .shutdown, noO), (.client 1, noO)]) = .ok b ∧
+      b.g.shutting = true ∧ b.g.worker = .draining ∧
+      b.cl[0]? = some (.start (.putW 2 200 4 none)) ∧ b.cl[1]? = some .shutCas := by
+    refine ⟨_, rfl, ?_⟩
+    exact ⟨rfl, by decide, rfl, rfl⟩
+  obtain ⟨b, hr, hrest⟩ := hrun
+  exact ⟨b, reach_runB _ (.init []) hr, hrest⟩
+
+/-- key 1 (weight 3) is in; client 1 calls `get_ref(1)` and stands at `pool.add`, keeping the read guard of the
+    key's store shard; a put of weight 8 makes the worker evict key 1: it takes `weight_used` at `wu.sub` and stands
+    at `store.remove` of key 1 -/
+def guardRun : List (Act × Oracle) :=
+  call 0 (.putW 1 100 3 none) 4 ++ workerN 6 ++ call 1 (.getRef 1) 2 ++ call 0 (.putW 3 300 8 none) 4 ++
+  [(.worker, noO), (.worker, noO), (.worker, { dk := [false] }),
+   (.worker, { dk := [false], ids := [1], pops := [some 1] }), (.worker, noO), (.worker, noO)]
+
+/-- Non-vacuity of C18 (a) second alternative, (d), (e): in `guardRun` the worker owns `weight_used` at `evStore` and
+    is NOT enabled — client 1 keeps the read guard; client 1's `pool.add` is enabled (legal oracle: buffer 0), returns
+    the value, drops the guard, and then the worker's action is enabled and frees `weight_used`.  A `shutdown()` of
+    client 0 runs up to `store_clear`, waits there for client 1's guard, and goes on once the guard is dropped; at
+    `wu_zero` it waits for the worker (the owner of `weight_used`), and goes on once the worker has moved. -/
+example :
+    (match runB (BState.init cfgEx 0 [1, 2, 3, 4] 2) guardRun with
+     | .ok b =>
+       decide (b.wuOwner = some .worker ∧ b.storeReaders = [(1, 0)]) &&
+       (match b.w, b.cl[1]? with
+        | .evStore _ _ _ _ _, some (CPc.refPool 1 100) => true
+        | _, _ => false) &&
+       (match workerAct b noO with
+        | .error m => m == "not enabled: the store shard is read-locked"
+        | _ => false) &&
+       (match runB b [(.client 1, { pool := [0] })] with
+        | .ok b1 =>
+          decide (b1.storeReaders = []) &&
+          (match b1.res[1]? with | some [Out.value (some 100)] => true | _ => false) &&
+          (match workerAct b1 noO with
+           | .ok (b2, _) => decide (b2.wuOwner = none)
+           | _ => false)
+        | _ => false) &&
+       (match runB b (call 0 .shutdown 6) with
+        | .ok b1 =>
+          (match b1.cl[0]? with | some CPc.shutStoreClear => true | _ => false) &&
+          (match clientAct b1 0 noO with
+           | .error m => m == "not enabled: a store shard is read-locked"
+           | _ => false) &&
+          (match runB b1 [(.client 1, { pool := [0] }), (.client 0, noO), (.client 0, noO)] with
+           | .ok b2 =>
+             (match b2.cl[0]? with | some CPc.shutWuZero => true | _ => false) &&
+             (match clientAct b2 0 noO with
+              | .error m => m == "not enabled: weight_used is locked"
+              | _ => false) &&
+             (match runB b2 [(.worker, noO), (.client 0, noO)] with
+              | .ok b3 => (match b3.cl[0]? with | some CPc.shutAfClear => true | _ => false)
+              | _ => false)
+           | _ => false)
+        | _ => false)
+     | _ => false) = true := by decide
+
+/-- the hypotheses of `C18_layerB_guard_holder_enabled`, `blocked_by_guard`, `C18_layerB_shutdown_progress` hold at a
+    reachable state: `HoldsGuard` by client 1 on shard 0, the worker's store write blocked, client 0 at `store_clear` -/
+example : ∃ b, Reach cfgEx 0 [1, 2, 3, 4] 2 b ∧ b.cl[1]? = some (.refPool 1 100) ∧ (1, 0) ∈ b.storeReaders ∧
+    storeWritable b 1 none = false ∧ b.cl[0]? = some .shutStoreClear ∧ 0 < b.g.pool.length ∧
+    b.wuOwner = some .worker := by
+  have hrun : ∃ b, runB (BState.init cfgEx 0 [1, 2, 3, 4] 2) (guardRun ++ call 0 .shutdown 6) = .ok b ∧
+      b.cl[1]? = some (.refPool 1 100) ∧ (1, 0) ∈ b.storeReaders ∧
+      storeWritable b 1 none = false ∧ b.cl[0]? = some .shutStoreClear ∧ 0 < b.g.pool.length ∧
+      b.wuOwner = some .worker := by
+    refine ⟨_, rfl, ?_⟩
+    exact ⟨rfl, by decide, by decide, rfl, by decide, by decide⟩
+  obtain ⟨b, hr, hrest⟩ := hrun
+  exact ⟨b, reach_runB _ (.init []) hr, hrest⟩
+
+/-- the shard map is an input: with keys 1 and 3 on different store shards the same `get_ref(1)` guard does NOT
+    block a `delete(3)` (shard 1) while it does block a `delete(1)` (shard 0) -/
+example :
+    (match runB { BState.init cfgEx 0 [1, 2, 3, 4] 3 with storeShard := [(1, 0), (3, 1)] }
+        (call 0 (.putW 1 100 3 none) 4 ++ workerN 6 ++ call 1 (.getRef 1) 2 ++ call 0 (.delete 1) 1 ++ call 2 (.delete 3) 1) with
+     | .ok b =>
+       decide (b.storeReaders = [(1, 0)] ∧ storeWritable b 1 (some 0) = false ∧ storeWritable b 3 (some 2) = true ∧
+               storeWritable b 1 (some 1) = true) &&
+       (match clientAct b 0 noO with
+        | .error m => m == "not enabled: the store shard is read-locked"
+        | _ => false) &&
+       (match clientAct b 2 noO with | .ok _ => true | _ => false)
+     | _ => false) = true := by decide
 
 end B
 end Cached
